@@ -116,3 +116,23 @@ func FirstHit(t *model3d.Triangle, r *model3d.Ray) (model3d.RayCollision, bool) 
 	}
 	return model3d.RayCollision{Scale: s}, true
 }
+
+type gear struct {
+	P1, P2 model3d.Coord3D
+}
+
+// want:ORIGIN the query point is projected without subtracting P1.
+func (g *gear) Contains(c model3d.Coord3D) bool {
+	v1, _ := g.P2.Sub(g.P1).OrthoBasis()
+	return v1.Dot(c) < 1
+}
+
+type gear2 struct {
+	P1, P2 model3d.Coord3D
+}
+
+// clean:ORIGIN
+func (g *gear2) Contains(c model3d.Coord3D) bool {
+	v1, _ := g.P2.Sub(g.P1).OrthoBasis()
+	return v1.Dot(c.Sub(g.P1)) < 1
+}
